@@ -87,3 +87,19 @@ reg("C17", misc.check_C17, "other",
     "Chen formula oracle; the per-card points table over the 53 words; arithmetic panic sites discharged over the same pairs.",
     "closed-form MIR summary folded over the complete (2652-point) input space", "5-C17",
     ["IEEE-754 single precision add/sub/mul/div/max/ceil as emulated in ckcverif/evals.py"])
+
+from .rules import rank
+
+reg("C01", rank.check_C01, "other",
+    "Static: (T) every lookup-table cell a hand can reach compared with an independently generated poker ordinal; "
+    "(F) the five-card evaluation's MIR summary factors through rank-bit OR, all-same-suit test and prime product by "
+    "per-bit provenance (each slot exactly once, no other slot use), so the value is slot-symmetric; (S) the product search "
+    "decided by exact abstract reachability over every order cell of the key (each table entry found at its index); "
+    "(R) the residual folded over all 7462 hand classes equals the ordinal; (E) all entry points are wired to it.",
+    "table cells vs oracle + bit-level factorisation of MIR summary + abstract reachability of the search + fold over classes", "5-C01")
+reg("C13", rank.check_C13, "other",
+    "Static: is_flush / is_straight / is_wheel / is_straight_flush summaries factor through the rank mask and the "
+    "all-same-suit test (bit provenance); residuals folded over every rank mask five distinct cards can produce vs the "
+    "category definition; or_rank_bits/and_bits as bit formulas; deprecated twins have the same normal form; category "
+    "tables pinned by the same oracle (T).",
+    "bit-level factorisation + fold over the 13-bit rank-mask domain", "5-C13")
